@@ -52,6 +52,27 @@ CASES = [
  ("C24", "pkg/topology/kademlia/kademlia.go", "func (k *Kad) Connected(", [("po", "bin")]),
  ("C33", "pkg/settlement/traffic/traffic.go", "func (s *Service) PutRetrieveTraffic(", [("chainTraffic", "ct")]),
  ("C40", "pkg/subscribe/subscribe.go", "func (s *subPub) Publish(", [("slice", "subs"), ("sub", "one")]),
+ # rules added in rounds 4/5
+ ("C39", "pkg/bitvector/bitvector.go", "func (bv *BitVector) Equals(", [("i", "pos")]),
+ ("C17", "pkg/bitvector/bitvector.go", "func (bv *BitVector) Equals(", [("i", "pos")]),
+ ("C39", "pkg/bitvector/bitvector.go", "func (bv *BitVector) SetBytes(", [("i", "pos"), ("bi", "byteIdx")]),
+ ("C22", "pkg/topology/kademlia/kademlia.go", "func recalcDepth(", [("shallowestUnsaturated", "cursor"), ("binCount", "cnt"), ("bin", "b")]),
+ ("C19", "pkg/shed/field_uint64.go", "func (f Uint64Field) IncInBatch(", [("val", "cur")]),
+ ("C19", "pkg/shed/index.go", "func (f Index) First(", [("totalPrefix", "tp")]),
+ ("C31", "pkg/settlement/traffic/traffic.go", "func (s *Service) trafficPeerChequeUpdate(", [("traffic", "tr"), ("cq", "chq")]),
+ ("C33", "pkg/settlement/traffic/traffic.go", "func (s *Service) trafficInit(", [("lastCheques", "sent"), ("lastTransCheques", "got"), ("allRetrieveTransfer", "addrs")]),
+ ("C29", "pkg/hive2/lookup.go", "func inArray(", [("v", "want"), ("pos", "orders")]),
+ ("C40", "pkg/subscribe/subscribe.go", "func (s *subPub) process(", [("info", "ev"), ("n", "pending")]),
+ ("C40", "pkg/subscribe/subscribe.go", "func (s *subPub) Subscribe(", [("info", "reg")]),
+ ("C38", "pkg/multicast/handshake.go", "func (s *Service) HandshakeAllKept(", [("g", "grp"), ("v", "peer")]),
+ ("C15", "pkg/pinning/pinning.go", "func (s *Service) HasPin(", [("val", "stored"), ("key", "k")]),
+ ("C27", "pkg/routetab/utils.go", "func generatePathItems(", [("s", "raw"), ("v", "hop")]),
+ ("C27", "pkg/routetab/table.go", "func (t *Table) Delete(", [("routesNow", "kept"), ("routes", "cur")]),
+ ("C21", "pkg/topology/pslice/pslice.go", "func (s *PSlice) Length(", [("ret", "total")]),
+ ("C32", "pkg/accounting/accounting.go", "func (a *Accounting) Debit(", [("traff", "served"), ("tolerance", "tol")]),
+ ("C12", "pkg/chunkinfo/chunkpyramid.go", "func (ci *ChunkInfo) getUnRepeatChunk(", [("v", "cnt")]),
+ ("C36", "pkg/keystore/mem/service.go", "func (s *Service) Key(", [("k", "entry")]),
+ ("C25", "pkg/p2p/libp2p/internal/blocklist/blocklist.go", "func (b *Blocklist) Add(", [("key", "k")]),
 ]
 def func_range(lines, prefix):
     for i, l in enumerate(lines):
